@@ -8,7 +8,7 @@ RULE = ("correspondence: generated worlds (area features, plumes; both coordinat
         "non-trivial = answered with values; distinct = distinct command lines. oracle: on the C++ library alone, batched vs stand-alone vs permuted vs repeated "
         "vs single-property entry points vs after-other-queries, compared bit for bit.")
 TRUSTED_BASE = ["history / other-world independence of the C++ (no hidden statics) is established by the correspondence and the oracle on sampled histories, not by a theorem"]
-ASSUMPTIONS = ["worlds without random models (C15 covers those)", "slab/fault models mass conserving, plate model, water content and random grains are not yet inside the Lean model (worlds using them are skipped by the correspondence and covered by the implementation-level oracle only)"]
+ASSUMPTIONS = ["worlds without random models (C15 covers those)", "a world the Lean driver cannot elaborate is answered `err unsupported` and skipped by the correspondence (counted in this file); since the second round this no longer includes the slab-only temperature models, water content and slab/fault random grains"]
 
 
 def fresh_answer(world_path, cmd):
